@@ -24,6 +24,7 @@ pub fn run(id: &str) -> Result<String, String> {
         "F36" => f36(),
         "F37" => f37(),
         "F38" => f38(),
+        "F39" => f39(),
         _ => Err(format!("unknown witness {id}")),
     }
 }
@@ -668,4 +669,38 @@ fn f38() -> Result<String, String> {
     if checked == 0 { return Err("witness did not reach an fqzcomp block".into()); }
     if !bad.is_empty() { return Err(format!("CRAM writer declares a wrong uncompressed size: {}", bad.join("; "))); }
     Ok(format!("\"fqzcomp_blocks\":{checked}"))
+}
+
+/// F39: genotypes of different ploidy in one record (C10: "padded per-sample vectors of unequal length are preserved").
+fn f39() -> Result<String, String> {
+    use noodles_vcf as vcf;
+    use vcf::variant::io::Write as _;
+    let mut bad = Vec::new();
+    let mut n = 0;
+    for gts in [vec!["0/1/2", "0/1"], vec!["0/1", "0/1/2"], vec!["0|1|1|0", "1", "0/1"], vec!["0/1", "1/1"], vec!["0", "0/1", "./."]] {
+        n += 1;
+        let names: Vec<String> = (0..gts.len()).map(|i| format!("s{i}")).collect();
+        let text = format!("##fileformat=VCFv4.3\n##FORMAT=<ID=GT,Number=1,Type=String,Description=\"g\">\n##contig=<ID=sq0,length=1000>\n#CHROM\tPOS\tID\tREF\tALT\tQUAL\tFILTER\tINFO\tFORMAT\t{}\nsq0\t10\t.\tA\tC,G\t.\t.\t.\tGT\t{}\n", names.join("\t"), gts.join("\t"));
+        let r = std::panic::catch_unwind(|| -> Result<(), String> {
+            let mut rd = vcf::io::Reader::new(text.as_bytes());
+            let header = rd.read_header().map_err(|e| format!("vcf header: {e}"))?;
+            let recs: Vec<_> = rd.record_bufs(&header).collect::<Result<_, _>>().map_err(|e| format!("vcf: {e}"))?;
+            let mut w = noodles_bcf::io::Writer::from(Vec::new());
+            w.write_header(&header).map_err(|e| format!("write_header: {e}"))?;
+            for r in &recs { w.write_variant_record(&header, r).map_err(|e| format!("write: {e}"))?; }
+            let data = w.get_ref().clone();
+            let mut rd = noodles_bcf::io::Reader::from(&data[..]);
+            let h2 = rd.read_header().map_err(|e| format!("bcf header: {e}"))?;
+            let back: Vec<_> = rd.record_bufs(&h2).collect::<Result<_, _>>().map_err(|e| format!("bcf read: {e}"))?;
+            if back.len() != 1 { return Err(format!("{} records", back.len())); }
+            // compare through the VCF text rendering of the samples
+            let render = |h: &vcf::Header, r: &vcf::variant::RecordBuf| -> Result<String, String> { let mut w = vcf::io::Writer::new(Vec::new()); w.write_variant_record(h, r).map_err(|e| format!("render: {e}"))?; Ok(String::from_utf8_lossy(w.get_ref()).to_string()) };
+            let (a, b) = (render(&header, &recs[0])?, render(&h2, &back[0])?);
+            if a != b { return Err(format!("read back {:?} instead of {:?}", b.trim_end().rsplit('\t').take(gts.len()).collect::<Vec<_>>(), a.trim_end().rsplit('\t').take(gts.len()).collect::<Vec<_>>())); }
+            Ok(())
+        });
+        match r { Err(_) => bad.push(format!("GT {gts:?}: PANIC")), Ok(Err(e)) => bad.push(format!("GT {gts:?}: {e}")), Ok(Ok(())) => {} }
+    }
+    if !bad.is_empty() { return Err(format!("BCF write+read of genotypes of different ploidy: {}", bad.join("; "))); }
+    Ok(format!("\"cases\":{n}"))
 }
